@@ -124,7 +124,7 @@ func genChangelog(r *core.Rand, maxEntries int) clDoc {
 			e.Dists = append(e.Dists, r.Pick([]string{"unstable", "experimental", "stable-security", "bookworm-backports", "UNRELEASED"}))
 		}
 		if !r.Chance(1, 8) || i == 0 {
-			e.Opts = append(e.Opts, [2]string{"urgency", r.Pick([]string{"low", "medium", "high", "critical"})})
+			e.Opts = append(e.Opts, [2]string{"urgency", r.Pick([]string{"low", "medium", "high", "critical", "HIGH", "Medium", "emergency"})})
 			for k := r.Range(0, 2); k > 0; k-- {
 				e.Opts = append(e.Opts, [2]string{r.Pick([]string{"binary-only", "x-key", "team"}) + fmt.Sprint(k), r.Pick([]string{"yes", "no", "a-b"})})
 			}
